@@ -23,22 +23,28 @@ Proof.
     rewrite (count_unsliced_char _ _ _ _ Hs). reflexivity.
 Qed.
 
-Theorem count_sliced_refused s ws we rows :
-  truthy ws || truthy we = true -> run_count s (ws, we) rows = OAssert.
+Theorem count_sliced_refused s win rows :
+  sliced win = true -> run_count s win rows = OAssert.
 Proof.
-  intros H. unfold run_count. cbn [fst snd].
+  intros H. destruct win as [ws we]. unfold run_count. cbn [fst snd].
   destruct (count_distinct_is_int (sr_clause s) rows) as [cd ->].
   rewrite (count_refused_char _ _ _ _ _ H). reflexivity.
 Qed.
 
-(* the defect: an empty window [..:0] passes both assertions and is then ignored *)
-Theorem count_empty_window s ws rows :
-  falsy ws -> sr_dist s = false ->
-  run_count s (ws, VInt 0) rows = OInt (zlength (matching (sr_clause s) rows)).
+Lemma unsliced_shape win : sliced win = false -> falsy (fst win) /\ snd win = VNone.
 Proof.
-  intros Hs Hd. unfold run_count. cbn [fst snd].
-  destruct (count_distinct_is_int (sr_clause s) rows) as [cd ->].
-  rewrite Hd, (count_empty_window_char _ _ _ Hs). reflexivity.
+  destruct win as [ws we]. unfold sliced, falsy. cbn [fst snd]. intros H.
+  apply orb_false_iff in H. destruct H as [H1 H2]. split; [exact H1|]. destruct we; [reflexivity|discriminate|discriminate].
+Qed.
+
+(* count() on every window state: a number exactly when the select is not sliced *)
+Theorem count_total s win rows :
+  (sr_dist s = true -> ids_unique rows) ->
+  run_count s win rows = if sliced win then OAssert else OInt (zlength (matching (sr_clause s) rows)).
+Proof.
+  intros Hu. destruct (sliced win) eqn:E; [exact (count_sliced_refused _ _ _ E)|].
+  destruct (unsliced_shape _ E) as [H1 H2]. destruct win as [ws we]. cbn [fst snd] in *. subst we.
+  exact (count_unsliced s ws rows H1 Hu).
 Qed.
 
 Lemma accepted_length q rows out :
